@@ -404,6 +404,12 @@ Proof.
       { intros ->. destruct Ha as (cn & c & H1 & _). unfold close in H1. cbn [conns set_conns] in H1.
         rewrite upd_same in H1. discriminate. }
       eapply authed_as_ext; [|exact Ha]. cbn [conns set_conns]. apply upd_other. assumption.
+  - (* ESetRecord *) destruct (clients s x) as [cl|] eqn:Hc; [|exact (conj Hf Hinv)]. split.
+    + intros y Hy. cbn in *. unfold upd. destruct (N.eqb_spec y x) as [->|_]; [|apply Hf; exact Hy].
+      rewrite (Hf _ Hy) in Hc. discriminate.
+    + eapply idx_inv_ext; [| |exact Hinv]; reflexivity.
+  - exact (conj Hf Hinv).
+  - exact (conj Hf Hinv).
 Qed.
 
 Lemma init_wf : wf init.
@@ -489,6 +495,7 @@ Proof.
     destruct (N.eq_dec k k0) as [->|Hn].
     + rewrite upd_same in H1. injection H1 as <-. destruct H as [H _]. discriminate.
     + rewrite upd_other in H1 by assumption. apply (close_authed s k0). exists cn, c. auto.
+  - (* ESetRecord *) left. destruct (clients s x0); exact Ha.
 Qed.
 
 (* history form: every authenticated connection has a proof step on that same connection in its history *)
@@ -610,6 +617,91 @@ Proof.
   - intro x. reflexivity.
   - unfold pending_of. rewrite post_auth_conns, N.eqb_refl, Hc. cbn. unfold c0. destruct (c_cc cn); reflexivity.
 Qed.
+
+(* ------------------------------------------------------------------------------------------ *)
+(* the authentication gate is a function of exactly the record fields the property names        *)
+(* ------------------------------------------------------------------------------------------ *)
+
+(* two client records that differ at most in non-gate fields (UserID, Type, ... = meta) *)
+Definition same_rec (c c' : client) : Prop := stored c = stored c' /\ expired c = expired c'.
+(* two server states that differ at most in non-gate fields of client records *)
+Definition same_gate (s s' : srv) : Prop :=
+  (forall x, match clients s x, clients s' x with
+             | Some c, Some c' => same_rec c c' | None, None => True | _, _ => False end) /\
+  next_id s = next_id s' /\ next_secret s = next_secret s' /\ next_nonce s = next_nonce s' /\
+  (forall a, banned s a = banned s' a) /\ (forall a, black s a = black s' a) /\
+  (forall a, fails s a = fails s' a) /\ rl_deny s = rl_deny s' /\
+  (forall k, conns s k = conns s' k) /\ (forall x, index s x = index s' x).
+
+Lemma same_gate_record_failure s s' a : same_gate s s' -> same_gate (record_failure s a) (record_failure s' a).
+Proof.
+  intros (Hc & Hi & Hs & Hn & Hb & Hbl & Hf & Hr & Hcn & Hix). unfold Auth.record_failure. rewrite <- (Hf a).
+  destruct ((pb <=? fails s a + 1) || (mf <=? fails s a + 1));
+    (split; [exact Hc|]); cbn; repeat split; try assumption;
+    try (intro a0; unfold upd; destruct (a0 =? a); auto).
+Qed.
+
+Lemma same_gate_clear_fails s s' a : same_gate s s' -> same_gate (clear_fails s a) (clear_fails s' a).
+Proof.
+  intros (Hc & Hi & Hs & Hn & Hb & Hbl & Hf & Hr & Hcn & Hix). unfold clear_fails.
+  (split; [exact Hc|]); cbn; repeat split; try assumption. intro a0; unfold upd; destruct (a0 =? a); auto.
+Qed.
+
+Lemma same_gate_bump s s' : same_gate s s' -> same_gate (bump_nonce s) (bump_nonce s').
+Proof.
+  intros (Hc & Hi & Hs & Hn & Hb & Hbl & Hf & Hr & Hcn & Hix).
+  (split; [exact Hc|]); cbn; repeat split; try assumption. rewrite Hn. reflexivity.
+Qed.
+
+Lemma same_gate_register s s' : same_gate s s' -> same_gate (register s) (register s').
+Proof.
+  intros (Hc & Hi & Hs & Hn & Hb & Hbl & Hf & Hr & Hcn & Hix). unfold same_gate, register; cbn. rewrite <- Hi, <- Hs.
+  split; [|repeat split; assumption].
+  intro x. unfold upd. destruct (x =? next_id s); [split; reflexivity|apply Hc].
+Qed.
+
+(* whatever the non-gate fields are: same response, same ControlConnection, and the states stay related *)
+Theorem auth_ignores_meta keep s s' c a m : same_gate s s' ->
+  let '(s1, c1, r) := auth keep s c a m in
+  let '(s1', c1', r') := auth keep s' c a m in
+  c1 = c1' /\ r = r' /\ same_gate s1 s1'.
+Proof.
+  intro H. pose proof H as (Hc & Hi & Hs & Hn & Hb & Hbl & Hf & Hr & Hcn & Hix).
+  unfold Auth.auth, blocked. rewrite <- (Hbl (k_ip a)), <- (Hbl (k_cidr a)), <- (Hb a), <- Hr, <- Hi, <- Hn.
+  destruct (black s (k_ip a) || black s (k_cidr a)); [auto|].
+  destruct (banned s a); [auto|].
+  destruct ((h_cid m =? 0) && rl_deny s); [auto|].
+  destruct ((h_cid m =? 0) && h_new m).
+  { split; [reflexivity|]. split; [reflexivity|]. unfold first_state.
+    destruct keep; [apply same_gate_register; exact H|apply same_gate_clear_fails; apply same_gate_register; exact H]. }
+  specialize (Hc (h_cid m)).
+  destruct (clients s (h_cid m)) as [cl|], (clients s' (h_cid m)) as [cl'|]; try contradiction.
+  2:{ split; [reflexivity|]. split; [reflexivity|]. apply same_gate_record_failure. exact H. }
+  destruct Hc as [Est Eex]. rewrite <- Est, <- Eex.
+  destruct (expired cl); [auto|].
+  destruct (h_resp m) as [r|].
+  - destruct (pending c) as [ch|].
+    + destruct (match secret_of (stored cl) with Some sec => r =? hmac sec ch | None => false end).
+      * split; [reflexivity|]. split; [reflexivity|]. apply same_gate_clear_fails. exact H.
+      * split; [reflexivity|]. split; [reflexivity|]. apply same_gate_record_failure. exact H.
+    + split; [reflexivity|]. split; [reflexivity|]. apply same_gate_record_failure. exact H.
+  - destruct (stored cl); auto using same_gate_bump.
+Qed.
+
+(* rewriting the non-gate fields of a record (ESetRecord with the same expiry flag) keeps the states related *)
+Lemma set_meta_same_gate v s x m cl : clients s x = Some cl ->
+  same_gate s (fst (step v s (ESetRecord x (expired cl) m))).
+Proof.
+  intro Hc. cbn [Auth.step fst]. rewrite Hc. unfold same_gate. cbn. split; [|repeat split; reflexivity].
+  intro y. unfold upd. destruct (N.eqb_spec y x) as [->|_].
+  - rewrite Hc. split; reflexivity.
+  - destruct (clients s y); [split; reflexivity|exact I].
+Qed.
+
+(* the asynchronous removal of an expired ban, and a short ban that runs out, never lift a ban in force *)
+Lemma async_unban_is_inert v s a :
+  fst (step v s (EUnbanLands a)) = s /\ fst (step v s (EBanLapse a)) = s.
+Proof. split; reflexivity. Qed.
 
 End Proofs.
 
